@@ -102,7 +102,30 @@ func ruleSpecStringSearch(c *Ctx, r *R) {
 			}
 			return out, true
 		},
+		"(Value).float64": func(in *absInterp, call *ssa.CallCommon, args []aval) (aval, bool) {
+			switch a := posOf(args[0]); a {
+			case "nan", "undefined":
+				return aNaN{}, true
+			case "+inf":
+				return aInt(big), true
+			case "-inf":
+				return aInt(-big), true
+			default:
+				var k int64
+				if _, err := fmt.Sscanf(a, "%d", &k); err != nil {
+					return nil, false
+				}
+				return aInt(k), true
+			}
+		},
 		"toIntegerFloat": func(in *absInterp, call *ssa.CallCommon, args []aval) (aval, bool) {
+			// the float form (ToInteger of an already converted number)
+			switch x := args[0].(type) {
+			case aNaN:
+				return aInt(0), true
+			case aInt:
+				return x, true
+			}
 			a := posOf(args[0])
 			switch a {
 			case "nan", "undefined":
